@@ -107,6 +107,21 @@ def main():
         f_add = find("::add_variable_from_value")
         f_add_conv = find("::add_variable")
         names = ["a", "b", "c"]
+        src_o = open(os.path.join(repo, "interpreter/src/objects.rs")).read()
+        vbody = src_o[src_o.index("pub enum Value {"):]
+        vbody = vbody[:vbody.index("\n}")]
+        VALUE_DISC = {"Value::" + nme: k_ for k_, nme in enumerate(re.findall(r"^\s{4}([A-Z]\w*)[\(,\n {]", vbody, re.M))}
+
+        def bound(n, lv):
+            """what scope `lv` binds name `n` to: values of different kinds, among them the ones a lookup could be tempted to treat as
+            'unset' (null, zero, false) in inner scopes over ordinary values outside"""
+            if n == "c" and lv == 1:
+                return ("enum", "Value::Null", [])
+            if n == "b" and lv == 2:
+                return ("enum", "Value::Bool", [False])
+            if n == "a" and lv == 1:
+                return ("enum", "Value::Int", [0])
+            return ("enum", "Value::Int", [100 * (lv + 1) + "abc".index(n)])
         subsets = [[n for k, n in enumerate(names) if (mask >> k) & 1] for mask in range(8)]
         for levels in (1, 2, 3):
             for combo in itertools.product(subsets, repeat=levels):
@@ -114,7 +129,7 @@ def main():
                 holders = []
                 parent_ref = None
                 for lv, defined in enumerate(combo):
-                    vars_ = ("map", {n: ("abs_val", "%s@%d" % (n, lv)) for n in defined})
+                    vars_ = ("map", {n: bound(n, lv) for n in defined})
                     if lv == 0:
                         node = ("enum", "Context::Root", [("registry",), vars_])
                     else:
@@ -127,10 +142,11 @@ def main():
                 def expected(name, combo=combo):
                     for lv in range(len(combo) - 1, -1, -1):
                         if name in combo[lv]:
-                            return ("enum", "Result::Ok", [("abs_val", "%s@%d" % (name, lv))])
+                            return ("enum", "Result::Ok", [bound(name, lv)])
                     return None
                 eng = Engine(fns, consts, extern)
                 eng.discriminants = {"Context::Root": 0, "Context::Child": 1, "Result::Ok": 0, "Result::Err": 1, "ControlFlow::Continue": 0, "ControlFlow::Break": 1}
+                eng.discriminants.update(VALUE_DISC)
                 eng.steps = 0
                 probs = []
                 for name in names:
